@@ -114,6 +114,13 @@ func (in *Interp) execInstr(fr *frame, instr ssa.Instruction) {
 	case *ssa.MakeSlice:
 		ln := in.get(fr, x.Len).(*sym.Term)
 		cp := in.get(fr, x.Cap).(*sym.Term)
+		if ln.IsConst() && !cp.IsConst() {
+			// a capacity hint computed from symbolic data (make([]T, 0, strings.Count(s, ",")+1)): modelled as
+			// capacity == length, i.e. every append copies; only code in which two slice values share the spare
+			// capacity of one array could tell the difference
+			in.stubs["make([]T, n, <symbolic capacity>) modelled with capacity n (appends copy)"] = true
+			cp = ln
+		}
 		if !ln.IsConst() || !cp.IsConst() {
 			in.fail("MakeSlice with symbolic size at %s", in.posStr(x.Pos(), fr.fn))
 		}
@@ -782,7 +789,7 @@ func (in *Interp) rangeInit(v Value) Value {
 			it := &rangeIter{}
 			keys := x.rv.MapKeys()
 			type kv struct {
-				k string
+				k        string
 				key, val Value
 			}
 			var l []kv
